@@ -9,6 +9,7 @@ from __future__ import annotations
 
 import asyncio
 import contextlib
+import os
 
 from prompt_toolkit import PromptSession
 from prompt_toolkit.application.current import set_app
@@ -26,6 +27,31 @@ from prompt_toolkit.key_binding.key_processor import KeyPress, _Flush
 from prompt_toolkit.keys import KEY_ALIASES, Keys
 from prompt_toolkit.output import DummyOutput
 from prompt_toolkit.selection import SelectionState, SelectionType
+
+# The default key bindings are stateless (their filters look at `get_app()`), but building them costs
+# ~16 ms per Application.  Share one instance per process: same handlers, same filters.
+import prompt_toolkit.application.application as _appmod
+
+_orig_load = _appmod.load_key_bindings
+_orig_load_page = _appmod.load_page_navigation_bindings
+_shared = {}
+
+
+def _load_shared():
+    if "kb" not in _shared:
+        _shared["kb"] = _orig_load()
+    return _shared["kb"]
+
+
+def _load_page_shared():
+    if "page" not in _shared:
+        _shared["page"] = _orig_load_page()
+    return _shared["page"]
+
+
+if os.environ.get("C05_FRESH_BINDINGS") != "1":
+    _appmod.load_key_bindings = _load_shared
+    _appmod.load_page_navigation_bindings = _load_page_shared
 
 SEL_TYPES = {SelectionType.CHARACTERS: 0, SelectionType.LINES: 1, SelectionType.BLOCK: 2}
 
